@@ -1,12 +1,12 @@
 SPECIFICATION SimSpec
 CONSTANTS
-  Nodes = {1, 2, 3}
+  Nodes = {1, 2, 3, 4}
   Epoch = 2
-  JoinSet = {}
+  JoinSet = {4}
   RemainSet = {1, 2, 3}
   LeaveSet = {}
-  Leader = 1
-  Thr = 2
+  Leader = 2
+  Thr = 3
   Period = 3
   Genesis = 100
   TMin = 110
@@ -14,8 +14,10 @@ CONSTANTS
   LateSet = {}
   RankChoices <- SimRanks
   PermuteLists = TRUE
-  AtomicGossip = FALSE
+  AtomicGossip = TRUE
   AtomicExec = FALSE
-  Depth = 200
+  MaxDrop = 1
+  Depth = 150
   MaxDup = 4
+  ShiftRanks = TRUE
 CHECK_DEADLOCK FALSE
